@@ -456,6 +456,9 @@ func driveUntrusted(h *vh.H, strict, safe bool) {
 						h.Viol("bytes", ci, "", "untrusted bytes ["+rt.name+"]: allocation not bounded by the input length", d)
 					}
 					h.Distinct(rt.name, in)
+					if ii == 1 && k == 0 && (rt.name == "Header" || rt.name == "WorkReport") {
+						h.Sample(map[string]any{"type": rt.name, "mutant_len": len(in), "mutant_head": vh.Hex(in[:min(len(in), 64)]), "accepted": err == nil, "allocated_bytes": alloc})
+					}
 				}
 				if err != nil {
 					h.Inc("rejected")
@@ -566,6 +569,9 @@ func TestVerifC14(t *testing.T) {
 				h.Viol("frame", ci, "", "untrusted bytes: message reader allocation not bounded by the input length", d)
 			}
 			h.Inc("frames_watched")
+			if ci < 2 && ii == 1 {
+				h.Sample(map[string]any{"type": "fuzz.Message", "frame_len": len(in), "frame_head": vh.Hex(in[:min(len(in), 48)]), "accepted": err == nil, "allocated_bytes": alloc})
+			}
 			if err == nil {
 				h.Inc("frames_accepted")
 			}
